@@ -145,10 +145,13 @@ type VC struct {
 	goSites  []goSite
 	trivialFrames int
 	iterTypes map[string]types.Type
+	compTypes map[string][]types.Type
+	nact     int
+	compMath map[string]func(*VC)
 }
 
 func newVC(p *Program, name string) *VC {
-	vc := &VC{P: p, Name: name, declared: map[string]bool{}, nfresh: map[string]int{}, compSort: map[string]string{}, notes: map[string]bool{}, usedContracts: map[string]*Contract{}, iterTypes: map[string]types.Type{}}
+	vc := &VC{P: p, Name: name, declared: map[string]bool{}, nfresh: map[string]int{}, compSort: map[string]string{}, notes: map[string]bool{}, usedContracts: map[string]*Contract{}, iterTypes: map[string]types.Type{}, compTypes: map[string][]types.Type{}, compMath: map[string]func(*VC){}}
 	vc.emit("(declare-datatypes ((Slice 0)) (((mk_slice (sarr Int) (soff (_ BitVec 64)) (slen (_ BitVec 64)) (scap (_ BitVec 64))))))")
 	vc.emit("(declare-datatypes ((Iface 0)) (((mk_iface (itag Int) (ival Int)))))")
 	return vc
@@ -358,7 +361,11 @@ func (vc *VC) tupleSort(tu *types.Tuple) string {
 
 func (vc *VC) fieldAcc(t types.Type, i int) string {
 	st := under(t).(*types.Struct)
-	return sym(fmt.Sprintf("S_%s.%s", structName(t), st.Field(i).Name()))
+	fname := st.Field(i).Name()
+	if fname == "_" {
+		fname = fmt.Sprintf("_%d", i)
+	}
+	return sym(fmt.Sprintf("S_%s.%s", structName(t), fname))
 }
 
 func (vc *VC) structCtor(t types.Type) string {
@@ -527,25 +534,36 @@ func (vc *VC) havoc(m Mem, comp string) string {
 
 func (vc *VC) fieldComp(structT types.Type, i int) string {
 	st := under(structT).(*types.Struct)
-	name := fmt.Sprintf("F:%s.%s", structName(structT), st.Field(i).Name())
+	fname := st.Field(i).Name()
+	if fname == "_" {
+		fname = fmt.Sprintf("_%d", i)
+	}
+	name := fmt.Sprintf("F:%s.%s", structName(structT), fname)
+	vc.compTypes[name] = []types.Type{st.Field(i).Type()}
 	return vc.comp(name, fmt.Sprintf("(Array Int %s)", vc.sortOf(st.Field(i).Type())))
 }
 
 func (vc *VC) cellComp(t types.Type) string {
 	srt := vc.sortOf(t)
+	vc.compTypes["C:"+srt] = []types.Type{t}
 	return vc.comp("C:"+srt, fmt.Sprintf("(Array Int %s)", srt))
 }
 
 func (vc *VC) elemComp(elem types.Type) string {
 	srt := vc.sortOf(leafType(elem))
+	vc.compTypes["M:"+srt] = []types.Type{leafType(elem)}
 	return vc.comp("M:"+srt, fmt.Sprintf("(Array Int (Array (_ BitVec 64) %s))", srt))
 }
 
 func (vc *VC) mapComps(mt *types.Map) (dom, val, card string) {
 	ks, vs := vc.sortOf(mt.Key()), vc.sortOf(mt.Elem())
-	dom = vc.comp("Kd:"+ks, fmt.Sprintf("(Array Int (Array %s Bool))", ks))
+	vc.compTypes["Kd:"+ks] = []types.Type{mt.Key()}
+	vc.compTypes["Kv:"+ks+":"+vs] = []types.Type{mt.Key(), mt.Elem()}
+	vc.compTypes["Kd:"+ks+":"+vs] = []types.Type{mt.Key(), mt.Elem()}
+	vc.compTypes["Kc:"+ks+":"+vs] = []types.Type{mt.Key(), mt.Elem()}
+	dom = vc.comp("Kd:"+ks+":"+vs, fmt.Sprintf("(Array Int (Array %s Bool))", ks))
 	val = vc.comp("Kv:"+ks+":"+vs, fmt.Sprintf("(Array Int (Array %s %s))", ks, vs))
-	card = vc.comp("Kc", "(Array Int Int)")
+	card = vc.comp("Kc:"+ks+":"+vs, "(Array Int (_ BitVec 64))")
 	return
 }
 
@@ -660,7 +678,7 @@ func (vc *VC) oblige(kind, name, guard, goal, pos string) *Obligation {
 
 func (vc *VC) query(o *Obligation) string {
 	var b strings.Builder
-	b.WriteString("; obligation " + o.Name + "\n; function " + o.Func + "\n; at " + o.Pos + "\n")
+	b.WriteString("; obligation " + o.Name + "\n; function " + o.Func + "\n; at " + o.Pos + "\n(set-logic ALL)\n")
 	for _, d := range vc.decls[:o.NDecls] {
 		b.WriteString(d)
 		b.WriteByte('\n')
@@ -704,4 +722,22 @@ func under(t types.Type) types.Type {
 		return t.Underlying()
 	}
 	return t.Underlying()
+}
+
+// preRegister: declare the components discovered by a previous pass over the
+// same function, so that loop havoc / frame formulas cover all of them.
+func (vc *VC) preRegister(prev *VC) {
+	for _, c := range sortedKeys(prev.compSort) {
+		if strings.HasPrefix(c, "G:iter:") {
+			continue
+		}
+		for _, t := range prev.compTypes[c] {
+			vc.sortOf(t)
+		}
+		vc.compTypes[c] = prev.compTypes[c]
+		if prev.compMath[c] != nil {
+			prev.compMath[c](vc)
+		}
+		vc.comp(c, prev.compSort[c])
+	}
 }
